@@ -72,6 +72,18 @@ def main():
     for f in os.listdir(seed_dir):
         if os.path.isfile(os.path.join(seed_dir, f)) and not f.startswith('demo_bin') and os.path.getsize(os.path.join(seed_dir, f)) < 200000 and not os.access(os.path.join(seed_dir, f), os.X_OK) or f == 'run.sh':
             shutil.copy(os.path.join(seed_dir, f), os.path.join(out, f))
+    prev = {}
+    if os.path.exists(os.path.join(out, 'meta.json')):
+        try:
+            prev = json.load(open(os.path.join(out, 'meta.json')))
+        except Exception:
+            prev = {}
+    if skip_confirm and prev.get('confirmed_by_me'):
+        result['confirmed'] = prev['confirmed_by_me']
+    if prev.get('checks_with_patch_applied'):
+        hist = prev.get('earlier_runs', [])
+        hist.append(prev['checks_with_patch_applied'])
+        meta['earlier_runs'] = hist
     meta_out = dict(meta)
     meta_out.update({'breaks_property': meta.get('property'), 'needs_to_manifest': meta.get('needs'),
                      'what_i_ran': 'lib/seedtest.py: scratch worktree confirmation + ./check <props> --tier %s with the patch applied to /repo (undone afterwards)' % tier,
